@@ -1,7 +1,8 @@
 /-
 Fourth (light) walk through `Reconciler.sync`: where the NAMES of the recorded refs come from — every
 name in the status a pass computes was recorded before, or is the name of a creation request computed
-from the cached Job, or is the name of a pod in the pod cache.  Core Lean only.
+from the cached Job, or is the name of a pod in the pod cache that is controlled by the Job.  Core Lean
+only.
 -/
 import FurikoModel.Proofs.JobCtlInvRefsInv
 
@@ -72,15 +73,39 @@ def reqNamesOf (d : PIndex) (jo : JobObj) : List String :=
   | some reqs => reqs.map (reqName jo)
   | none => []
 
-/-- the allowed names of a pass -/
+/-- the names of the cached pods that are controlled by the Job -/
+def ownedNames (cache : List PodObj) (jo : JobObj) : List String :=
+  podNames (cache.filter (fun p => decide (p.ownerUid = some jo.uid)))
+
+theorem mem_ownedNames {cache : List PodObj} {jo : JobObj} {p : PodObj} (hp : p ∈ cache)
+    (ho : p.ownerUid = some jo.uid) : p.pod.name ∈ ownedNames cache jo := by
+  unfold ownedNames podNames
+  exact List.mem_map_of_mem (List.mem_filter.mpr ⟨hp, by simpa using ho⟩)
+
+theorem ownedNames_mem {cache : List PodObj} {jo : JobObj} {n : String} (h : n ∈ ownedNames cache jo) :
+    ∃ p ∈ cache, p.ownerUid = some jo.uid ∧ p.pod.name = n := by
+  unfold ownedNames podNames at h
+  obtain ⟨p, hp, hn⟩ := List.mem_map.mp h
+  have := List.mem_filter.mp hp
+  exact ⟨p, this.1, by simpa using this.2, hn⟩
+
+/-- the names of the creation requests computed from the cached Job that are FREE on the server when the
+pass starts (the pass's own create call then makes the pod, controlled by the Job — or fails; a
+requested name that is occupied is only ever adopted from a cached pod controlled by the Job) -/
+def freshReqNames (sp : Sys) (jo : JobObj) : List String :=
+  (reqNamesOf sp.d jo).filter (fun n => decide (n ∉ podNames sp.pods))
+
+/-- the allowed names of a pass: recorded before; requested and free on the server; or the name of a
+cached pod that is controlled by the Job -/
 def allowedNames (sp : Sys) (jo : JobObj) : List String :=
-  refNames jo.job ++ reqNamesOf sp.d jo ++ podNames sp.podCache
+  refNames jo.job ++ freshReqNames sp jo ++ ownedNames sp.podCache jo
 
 theorem mem_allowed_old {sp : Sys} {jo : JobObj} {n : String} (h : n ∈ refNames jo.job) : n ∈ allowedNames sp jo :=
   List.mem_append_left _ (List.mem_append_left _ h)
-theorem mem_allowed_req {sp : Sys} {jo : JobObj} {n : String} (h : n ∈ reqNamesOf sp.d jo) : n ∈ allowedNames sp jo :=
-  List.mem_append_left _ (List.mem_append_right _ h)
-theorem mem_allowed_cache {sp : Sys} {jo : JobObj} {n : String} (h : n ∈ podNames sp.podCache) :
+theorem mem_allowed_req {sp : Sys} {jo : JobObj} {n : String} (h : n ∈ reqNamesOf sp.d jo)
+    (hf : n ∉ podNames sp.pods) : n ∈ allowedNames sp jo :=
+  List.mem_append_left _ (List.mem_append_right _ (List.mem_filter.mpr ⟨h, by simpa using hf⟩))
+theorem mem_allowed_cache {sp : Sys} {jo : JobObj} {n : String} (h : n ∈ ownedNames sp.podCache jo) :
     n ∈ allowedNames sp jo := List.mem_append_right _ h
 
 /-- result of a step that may fail -/
@@ -148,7 +173,7 @@ theorem handleForceDelete_nok {N : List String} (s : Sys) (jo : JobObj) (rj : Jo
         exact updateJobTaskRefs_nok s1.clock _ tasks (markDeleted_nok rj _ _ (fun r => rfl) h) hT
 
 theorem adoptUnrecordedTasks_names (s : Sys) (jo : JobObj) (tasks : List Task) (N : List String)
-    (hT : ∀ t ∈ tasks, TaskOK t ∧ t.name ∈ N) (hc : ∀ n ∈ podNames s.podCache, n ∈ N) :
+    (hT : ∀ t ∈ tasks, TaskOK t ∧ t.name ∈ N) (hc : ∀ n ∈ ownedNames s.podCache jo, n ∈ N) :
     ∀ t ∈ adoptUnrecordedTasks s jo tasks, TaskOK t ∧ t.name ∈ N := by
   intro t hm
   unfold adoptUnrecordedTasks at hm
@@ -156,8 +181,12 @@ theorem adoptUnrecordedTasks_names (s : Sys) (jo : JobObj) (tasks : List Task) (
   · exact hT t h
   · obtain ⟨p, hpf, hp⟩ := List.mem_filterMap.mp h
     have hpm : p ∈ s.podCache := (sortPods_perm s.podCache).subset (List.mem_filter.mp hpf).1
+    have hown : p.ownerUid = some jo.uid := by
+      have := (List.mem_filter.mp hpf).2
+      simp only [Bool.and_eq_true, Bool.not_eq_true', decide_eq_true_eq] at this
+      exact this.2
     have := podTask_ok hp
-    exact ⟨this.1, by rw [this.2]; exact hc _ (List.mem_map_of_mem hpm)⟩
+    exact ⟨this.1, by rw [this.2]; exact hc _ (mem_ownedNames hpm hown)⟩
 
 theorem syncCreateTasks_nok {j0 : JobObj} (s : Sys) (jo : JobObj) (tasks : List Task) (hwf : WF2 j0 s.d)
     (hp : PodsGood j0 s) (hjo : VerOK j0 jo) (hg : Good j0 s.d jo.job)
@@ -184,7 +213,7 @@ theorem syncCreateTasks_nok {j0 : JobObj} (s : Sys) (jo : JobObj) (tasks : List 
         have hnames := reqs_names hwf hjo hg.refs hreqs
         have hreq : ∀ r ∈ reqs, CreateReq s.d jo r.index r.retryIndex :=
           fun r hr => ⟨hst, hdel, hcan, reqs, r.earliest, hreqs, hr⟩
-        have h1 := createLoop_good jo s.d s.podCache hjo reqs s jo.job tasks none rfl rfl hp hreq ht hnames.1
+        have h1 := createLoop_good jo s.d s.podCache (podNames s.pods) hjo reqs s jo.job tasks none rfl rfl (fun _ h => h) hp hreq ht hnames.1
           (fun r hr hmem => hnames.2 r hr (hsub _ hmem))
         generalize createLoop jo reqs s jo.job tasks none = res at h1 ⊢
         obtain ⟨s1, o⟩ := res
@@ -194,18 +223,22 @@ theorem syncCreateTasks_nok {j0 : JobObj} (s : Sys) (jo : JobObj) (tasks : List 
           obtain ⟨rj', tasks', minE⟩ := v
           (try simp only)
           obtain ⟨hrj, ht', hnew, _⟩ := h1 rj' tasks' minE rfl
-          subst hrj
+          have hjoN' : NOK (allowedNames s jo) rj' := hjoN.of_tasks (by rw [hrj.status])
           have hT' : ∀ t ∈ tasks', TaskOK t ∧ t.name ∈ allowedNames s jo := by
             intro t htm
             refine ⟨(ht'.ok t htm).1, ?_⟩
             rcases hnew t htm with h | h
             · exact (hT0 t h).2
-            · apply mem_allowed_req
-              unfold reqNamesOf
-              rw [hreqs]
-              exact h.1
-          have fin : ∀ s2, NOK (allowedNames s jo) (updateTaskRefStatus s2 (jobKey jo) jo.job tasks').2 :=
-            fun s2 => updateTaskRefStatus_nok s2 (jobKey jo) jo.job tasks' hjoN hT'
+            · obtain ⟨hn, p, hpt, hsrc⟩ := h
+              have hpn := (podTask_ok hpt).2
+              rcases hsrc with ⟨_, hfr⟩ | ⟨hpc, hpo⟩
+              · refine mem_allowed_req ?_ (by rw [hpn]; exact hfr)
+                unfold reqNamesOf
+                rw [hreqs]
+                exact hn
+              · rw [hpn]; exact mem_allowed_cache (mem_ownedNames hpc hpo)
+          have fin : ∀ s2, NOK (allowedNames s jo) (updateTaskRefStatus s2 (jobKey jo) rj' tasks').2 :=
+            fun s2 => updateTaskRefStatus_nok s2 (jobKey jo) rj' tasks' hjoN' hT'
           cases minE with
           | none =>
             (try simp only)
@@ -230,9 +263,9 @@ theorem syncJobTasks_nok {j0 : JobObj} (s : Sys) (jo : JobObj) (hwf : WF2 j0 s.d
     OutNOK (allowedNames s jo) (syncJobTasks s jo jo.job).2 := by
   unfold syncJobTasks
   (try simp only)
-  have htf := tasksForRefs_good hp jo.job.status.tasks hg.nodup
-  have h1 := syncCreateTasks_nok s jo (tasksForRefs s jo.job.status.tasks) hwf hp hjo hg hst hdel htf.1 htf.2
-  generalize syncCreateTasks s jo jo.job (tasksForRefs s jo.job.status.tasks) = r1 at h1 ⊢
+  have htf := tasksForRefs_good (jo := jo) hp hjo.uid jo.job.status.tasks hg.nodup
+  have h1 := syncCreateTasks_nok s jo (tasksForRefs s jo jo.job.status.tasks) hwf hp hjo hg hst hdel htf.1 htf.2
+  generalize syncCreateTasks s jo jo.job (tasksForRefs s jo jo.job.status.tasks) = r1 at h1 ⊢
   obtain ⟨s1, o1⟩ := r1
   cases o1 with
   | none => (try simp only); intro _ h; cases h
@@ -274,8 +307,8 @@ theorem syncJobTasks_nok {j0 : JobObj} (s : Sys) (jo : JobObj) (hwf : WF2 j0 s.d
           subst h
           exact h6
 
-theorem tasksForRefsConfirmed_names (s : Sys) (refs : List TaskRef) :
-    ∀ t ∈ tasksForRefsConfirmed s refs, TaskOK t ∧ t.name ∈ refs.map (·.name) := by
+theorem tasksForRefsConfirmed_names (s : Sys) (jo : JobObj) (refs : List TaskRef) :
+    ∀ t ∈ tasksForRefsConfirmed s jo refs, TaskOK t ∧ t.name ∈ refs.map (·.name) := by
   intro t ht
   unfold tasksForRefsConfirmed at ht
   obtain ⟨r, hr, hg⟩ := List.mem_filterMap.mp ht
@@ -283,7 +316,7 @@ theorem tasksForRefsConfirmed_names (s : Sys) (refs : List TaskRef) :
   exact ⟨this.1, by rw [this.2]; exact List.mem_map_of_mem hr⟩
 
 theorem handleFinalizer_nok {N : List String} (s : Sys) (jo : JobObj) (rj : Job) (fz : Bool) (h : NOK N rj)
-    (hc : ∀ n ∈ podNames s.podCache, n ∈ N) :
+    (hc : ∀ n ∈ ownedNames s.podCache jo, n ∈ N) :
     ∀ rj1 fz1, (handleFinalizer s jo rj fz).2 = some (rj1, fz1) → NOK N rj1 := by
   intro rj1 fz1
   unfold handleFinalizer
@@ -294,9 +327,9 @@ theorem handleFinalizer_nok {N : List String} (s : Sys) (jo : JobObj) (rj : Job)
     · (try simp only)
       have hT : ∀ t ∈ finalizerTasks s jo rj, TaskOK t ∧ t.name ∈ N := by
         unfold finalizerTasks
-        refine adoptUnrecordedTasks_names s _ _ N ?_ hc
+        refine adoptUnrecordedTasks_names s { jo with job := rj } _ N ?_ hc
         intro t ht
-        have := tasksForRefsConfirmed_names s rj.status.tasks t ht
+        have := tasksForRefsConfirmed_names s jo rj.status.tasks t ht
         exact ⟨this.1, h _ this.2⟩
       split
       · have h1 := updateTaskRefStatus_nok s (jobKey jo) _ (finalizerTasks s jo rj)
